@@ -173,7 +173,7 @@ func snapMW(c *rux.Context) {
 }
 
 func runC10(e *Env) {
-	e.Rule = "request histories (10..60 requests) on one router built from a generated registration program with an always-first snapshot middleware (or, on routers without any global middleware, the first instrumented handler of the chain snapshots); requests mix static, dynamic, 404, 405 routes; per request a designated handler performs dirtying actions drawn from {Set many keys, AddError x2, replace c.Resp, replace c.Req, Abort, SetStatus, write, assign Params, edit the Params map in place, edit the parsed query values, render a template (successfully or failing half way), set a response header, retain a Copy() of the context and its Data() map for 'background work' that writes to them while later requests are being served}, or panics (with an OnPanic hook, or without one so that the panic escapes ServeHTTP and is recovered by the caller), or serves a nested request. Observed by the first handler of every request: parsed query values, Data keys, Params, Errors, IsAborted, StatusCode, Length, type of c.Resp, RawWriter is this request's writer, c.Req is this request, Handler() non-nil, *Context pointer. Oracle (twin): the snapshot and the outcome of the k-th request equal those of the same request sent as the FIRST request to a freshly built identical router. Pooled-context reuse is measured by pointer identity; zero reuse => inconclusive. Non-trivial: a request served by a reused context whose previous user dirtied it; distinct by (program, history prefix)."
+	e.Rule = "request histories (10..60 requests) on one router built from a generated registration program with an always-first snapshot middleware (or, on routers without any global middleware, the first instrumented handler of the chain snapshots); requests mix static, dynamic, 404, 405 routes; per request a designated handler performs dirtying actions drawn from {Set many keys, AddError x2, replace c.Resp, replace c.Req, Abort, SetStatus, write, assign Params, edit the Params map in place, edit the parsed query values, render a template (successfully or failing half way), set a response header, retain a Copy() of the context and its Data() map for 'background work' that writes to them while later requests are being served}, or panics (with an OnPanic hook, or without one so that the panic escapes ServeHTTP and is recovered by the caller), or serves a nested request. Observed by the first handler of every request: parsed query values, Data keys, Params, Errors, IsAborted, StatusCode, Length, type of c.Resp, RawWriter is this request's writer, c.Req is this request, Handler() non-nil, *Context pointer. Oracle (twin): the snapshot and the outcome of the k-th request equal those of the same request sent as the FIRST request to a freshly built identical router. Pooled-context reuse is measured by pointer identity; zero reuse => inconclusive. Non-trivial: a request served by a reused context whose previous user dirtied it; distinct by (program, history prefix). Further actions: edit the allowed-methods list in place, re-dispatch through HandleContext, hijack the connection; routes without variables but with an optional part; the snapshot also shows the allowed list and the nil-ness of Params and is checked for markers only an earlier handler can have written."
 	e.Assumptions = []string{
 		"sequential histories: sync.Pool hands the same *Context back almost always (measured, not assumed)",
 		"a fresh identical router is the specification of 'pristine'",
